@@ -1,7 +1,6 @@
 import Arc.Model.C22
 import Arc.Proofs.C22.Nested
-/-! File-manifest part of the FSM: invariant (`FileInv`), its preservation by every manifest command
-inside the carve-out, batch all-or-nothing, and `restoreFs` = identity. Helper lemmas for C22. -/
+/-! File-manifest part of the FSM: invariant (`FileInv`), its preservation by every manifest command, batch all-or-nothing, and `restoreFs` = identity. Helper lemmas for C22. -/
 set_option linter.unusedSimpArgs false
 namespace Arc.C22
 open SMap
@@ -98,11 +97,11 @@ theorem fileInv_register {s : FileSt} (h : FileInv s) (i : Nat) (f : FileEntry) 
   · simp only [hok, Bool.not_false, if_true]
     exact h
 
-theorem fileInv_update {s : FileSt} (h : FileInv s) (i : Nat) (f : FileEntry) (hdb : f.db ≠ "") :
+theorem fileInv_update {s : FileSt} (h : FileInv s) (i : Nat) (f : FileEntry) :
     FileInv (applyUpdateFile s i f).1 := by
   unfold applyUpdateFile
   by_cases hok : fileOk f = true
-  · simp only [hok, Bool.not_true, Bool.false_eq_true, if_false, hdb, ne_eq, not_false_eq_true, if_true]
+  · simp only [hok, Bool.not_true, Bool.false_eq_true, if_false]
     apply fileInv_put h { f with lsn := i }
     unfold fileOk at hok
     simp only [Bool.and_eq_true] at hok
@@ -136,44 +135,32 @@ theorem fileInv_delete {s : FileSt} (h : FileInv s) (path : String) :
             rw [if_neg (fun hh => hd hh.symm)]
         · simp [hpp, h.agree]
 
-/-! ### the carve-out for the file index: no Update (single or batched) with an empty database -/
+/-! ### every manifest command keeps the invariant -/
 
-def batchOpSafe : BatchOp → Bool
-  | .update f => f.db != ""
-  | _ => true
-
-def fileSafe : Cmd → Bool
-  | .updateFile f => f.db != ""
-  | .batch ops => ops.all batchOpSafe
-  | _ => true
-
-theorem fileInv_batchOp {s : FileSt} (h : FileInv s) (i : Nat) (op : BatchOp)
-    (hs : batchOpSafe op = true) : FileInv (applyBatchOp s i op).1 := by
+theorem fileInv_batchOp {s : FileSt} (h : FileInv s) (i : Nat) (op : BatchOp) :
+    FileInv (applyBatchOp s i op).1 := by
   cases op with
   | register f => exact fileInv_register h i f
   | delete p => exact fileInv_delete h p
-  | update f =>
-    apply fileInv_update h i f
-    simpa [batchOpSafe] using hs
+  | update f => exact fileInv_update h i f
   | malformed => exact h
   | unsupported => exact h
 
-theorem fileInv_applyOps {s : FileSt} (h : FileInv s) (i : Nat) (ops : List BatchOp)
-    (hs : ops.all batchOpSafe = true) : FileInv (applyOps s i ops).1 := by
+theorem fileInv_applyOps {s : FileSt} (h : FileInv s) (i : Nat) (ops : List BatchOp) :
+    FileInv (applyOps s i ops).1 := by
   induction ops generalizing s with
   | nil => exact h
   | cons op rest ih =>
-    simp only [List.all_cons, Bool.and_eq_true] at hs
     unfold applyOps
     by_cases hr : (applyBatchOp s i op).2 = .ok
-    · rw [if_pos hr]; exact ih (fileInv_batchOp h i op hs.1) hs.2
-    · rw [if_neg hr]; exact fileInv_batchOp h i op hs.1
+    · rw [if_pos hr]; exact ih (fileInv_batchOp h i op)
+    · rw [if_neg hr]; exact fileInv_batchOp h i op
 
-theorem fileInv_batch {s : FileSt} (h : FileInv s) (i : Nat) (ops : List BatchOp)
-    (hs : ops.all batchOpSafe = true) : FileInv (applyBatch s i ops).1 := by
+theorem fileInv_batch {s : FileSt} (h : FileInv s) (i : Nat) (ops : List BatchOp) :
+    FileInv (applyBatch s i ops).1 := by
   unfold applyBatch
   by_cases hp : prevalidate ops = .ok
-  · rw [if_pos hp]; exact fileInv_applyOps h i ops hs
+  · rw [if_pos hp]; exact fileInv_applyOps h i ops
   · rw [if_neg hp]; exact h
 
 /-- effect of any command on the manifest part -/
@@ -187,14 +174,12 @@ def fsStep (s : FileSt) (i : Nat) : Cmd → FileSt
 theorem apply_fs (s : State) (i : Nat) (c : Cmd) : (apply s i c).1.fs = fsStep s.fs i c := by
   cases c <;> rfl
 
-theorem fileInv_step {s : FileSt} (h : FileInv s) (i : Nat) (c : Cmd) (hs : fileSafe c = true) :
-    FileInv (fsStep s i c) := by
+theorem fileInv_step {s : FileSt} (h : FileInv s) (i : Nat) (c : Cmd) : FileInv (fsStep s i c) := by
   cases c <;> try exact h
   · exact fileInv_register h i _
   · exact fileInv_delete h _
-  · exact fileInv_batch h i _ hs
-  · apply fileInv_update h i _
-    simpa [fileSafe] using hs
+  · exact fileInv_batch h i _
+  · exact fileInv_update h i _
 
 /-! ### batch all-or-nothing -/
 
